@@ -124,8 +124,19 @@ def sig_class(sig):
     return sig.split("|", 1)[0]
 
 
+def pin_to_cpu(shard):
+    """Each worker hands a baton between two threads thousands of times per second; on one CPU that is a
+    cheap local wake-up, across CPUs of a VM it costs an inter-processor interrupt (measured 4x slower)."""
+    try:
+        cpus = sorted(os.sched_getaffinity(0))
+        os.sched_setaffinity(0, {cpus[shard % len(cpus)]})
+    except (AttributeError, OSError):
+        pass
+
+
 def worker_main(pid, tier, shard, nshards, seed, outfile):
     t0 = time.time()
+    pin_to_cpu(shard)
     mod = load_module(pid)
     stats = _Stats()
     known = load_known(pid)
